@@ -3,21 +3,30 @@ import random
 from vlib import core, corr
 
 AREA = "C06"
-MODULES = ["TinsModel.Props.C06", "TinsModel.Props.Limits.C06"]   # + the constants / limits tied to the source (translator/gen_limits.py)
-AUDIT = ["Audit/C06.lean", "Audit/LimitsC06.lean"]
+MODULES = ["TinsModel.Props.C06", "TinsModel.Props.C06Sessions", "TinsModel.Props.C06Hyp", "TinsModel.Props.Limits.C06"]   # + the constants / limits tied to the source (translator/gen_limits.py)
+AUDIT = ["Audit/C06.lean", "Audit/C06Sessions.lean", "Audit/C06Hyp.lean", "Audit/LimitsC06.lean"]
 LEVEL = "proof"
 MANIFEST = dict(
     text="Lean 4 theorems over code-shaped executable models of DataTracker::process_payload/advance_sequence, "
-         "Flow::process_packet and the legacy TCPStream::generic_process (uint32 wrap explicit): refinement of a "
-         "set-of-arrived-positions spec for all streams, all ISNs (wrap-around included) and all arrival histories, via "
-         "an abstract tracker over absolute positions and a simulation under the key map a -> (isn+a) mod 2^32. "
+         "Flow::process_packet (over the C07 model of the Flow state machine: update_state, SYN offset) and the legacy "
+         "TCPStream / TCPStreamFollower (generic_process, update, the session table keyed by the 4-tuple, the data / end "
+         "functors; uint32 wrap explicit): refinement of a set-of-arrived-positions spec for all streams, all ISNs "
+         "(wrap-around included) and all arrival histories, via an abstract tracker over absolute positions and a "
+         "simulation under the key map a -> (isn+a) mod 2^32; for the legacy follower a reachable-state invariant of the "
+         "session table, a projection theorem (every connection's session and functor calls are those of the "
+         "single-connection machine over its own packets, for every capture and every interleaving) and the "
+         "single-connection machine phase by phase composed with the legacy refinement (follower_interleaving); each "
+         "hypothesis of the main theorem shown necessary by a witness (Props/C06Hyp.lean). "
          "Tied to the code by differential correspondence on random/exhaustive arrival histories under ASan/UBSan "
-         "(DataTracker directly, Flow and TCPStreamFollower with real IP/TCP/RawPDU packets) and by a spec oracle "
-         "(the Lean spec itself, executable) evaluated on the implementation's own output.",
+         "(DataTracker directly, Flow with real IP/TCP/RawPDU packets incl. SYN / FIN / RST segments, TCPStreamFollower "
+         "with 2-4 interleaved scripted connections: functor trace + whole session table after every packet) and by a "
+         "spec oracle (the Lean spec itself, executable) evaluated on the implementation's own output.",
     note="Trusted: Lean kernel + standard axioms; hand-written models tied by correspondence (harness/c06_*.cpp); "
-         "std::map successor modelled order-theoretically; generator coverage bounds what the tie sees; long chunks "
-         "and the delivered payload are compared through length + FNV-1a 64.",
-    technique="Lean 4 proof (invariant + simulation/refinement over arrival histories) + model/impl correspondence",
+         "std::map successor modelled order-theoretically, std::map<StreamInfo,_> as an association list under the "
+         "equivalence of StreamInfo::operator< (proved to be equality of the four fields); generator coverage bounds what "
+         "the tie sees; long chunks and the delivered payload are compared through length + FNV-1a 64.",
+    technique="Lean 4 proof (invariant + simulation/refinement over arrival histories; projection of a multi-connection "
+              "state machine onto per-connection machines) + model/impl correspondence",
     design="DESIGN.md §6 C06")
 MANIFEST["note"] += (" Constants and limits of the C++ source that the model restates (translator/gen_limits.py -> Gen/Limits.lean: "
                      "compiled probe + preprocessed function bodies at named anchors) are tied to the model's numerals by the "
@@ -122,14 +131,48 @@ def dup_case(rng):
 
 
 def to_flow(rng, case):
-    """the same case through Flow::process_packet with real IP/TCP/RawPDU packets"""
+    """the same case through Flow::process_packet with real IP/TCP/RawPDU packets; in a third of the cases the flow is
+    opened by a SYN (Flow::update_state sets the expected sequence number; sometimes the SYN carries data, TCP Fast Open),
+    segments carry PSH / FIN / RST / SYN flags (data is handled in every state; the payload of a SYN segment starts one past
+    its sequence number), the SYN is retransmitted later"""
     out = []
+    stateful = rng.random() < 0.35
+    isn = 0
     for op in case:
         w = op.split(" ")
         if w[0] == "init":
-            out.append("f" + op)
+            isn = int(w[1])
+            if not stateful:
+                out.append("f" + op)
+                continue
+            # the flow is created with some other sequence number; the SYN brings the real one
+            r = rng.random()
+            if r < 0.12:
+                # FIN / RST before any SYN: the flow leaves UNKNOWN, so a later SYN does not move the expected sequence number
+                out.append(f"finit {isn} {w[2]}")
+                out.append(f"fpkt {rng.choice([FIN | ACK, RST])} {rng.randrange(2**32)} ~")
+                out.append(f"fpkt {SYN} {rng.randrange(2**32)} ~")
+            else:
+                out.append(f"finit {rng.choice([isn, 0, (isn + 7) % 2**32, rng.randrange(2**32)])} {w[2]}")
+                if r < 0.3:
+                    out.append(f"fbare {rng.randrange(2**32)}")        # an ACK in UNKNOWN changes nothing
+                if r < 0.5 and w[2] != "-":
+                    # TCP Fast Open: the SYN that opens the flow carries the first bytes of the stream
+                    s = bytes.fromhex(w[2])
+                    out.append(f"fpkt {SYN} {(isn - 1) % 2**32} {hexs(s[:rng.randint(0, len(s))])} @0")
+                else:
+                    out.append(f"fpkt {rng.choice([SYN, SYN | ACK])} {(isn - 1) % 2**32} ~")
         elif w[0] == "seg":
-            out.append(("fsegp " if rng.random() < 0.3 else "fseg ") + " ".join(w[1:]))
+            if stateful and rng.random() < 0.5:
+                seq, hx, off = int(w[1]), w[2], w[3]
+                fl = rng.choice([ACK | PSH, ACK | FIN, ACK | FIN | PSH, RST, RST | ACK, ACK | PSH | 32, SYN | ACK, SYN])
+                if fl & SYN:
+                    seq = (seq - 1) % 2**32                              # the SYN occupies one sequence number
+                out.append(f"{'fpktp' if rng.random() < 0.3 else 'fpkt'} {fl} {seq} {hx} {off}")
+            else:
+                out.append(("fsegp " if rng.random() < 0.3 else "fseg ") + " ".join(w[1:]))
+            if stateful and rng.random() < 0.05:
+                out.append(f"fpkt {rng.choice([SYN, FIN | ACK, RST])} {(isn - 1) % 2**32} ~")
             if rng.random() < 0.05:
                 out.append(f"fbare {w[1]}")
         elif w[0] == "adv":
@@ -163,8 +206,213 @@ def to_legacy(rng, case):
     return out
 
 
+def rand_segs(rng, L, max_segs):
+    """(offset, length) pairs cut from a stream of length L: a shuffled partition with duplicates and re-cut
+    retransmissions, or arbitrary overlapping / stale / empty segments"""
+    segs = []
+    if rng.random() < 0.5 and L:
+        cuts = sorted(set([0, L] + [rng.randint(0, L) for _ in range(rng.randint(0, max_segs))]))
+        segs = [(a, b - a) for a, b in zip(cuts, cuts[1:])]
+        segs += [rng.choice(segs) for _ in range(rng.randint(0, 2))]
+        for _ in range(rng.randint(0, 2)):
+            a = rng.randint(0, L); segs.append((a, rng.randint(0, L - a)))
+        if rng.random() < 0.3:
+            segs.pop(rng.randrange(len(segs)))          # a hole that may stay open
+    else:
+        for _ in range(rng.randint(0, max_segs)):
+            a = rng.randint(-4, L)
+            ln = rng.randint(0, max(0, L - a))
+            if a < 0 and rng.random() < 0.5:
+                ln = rng.randint(0, -a)
+            segs.append((a, ln))
+    rng.shuffle(segs)
+    return [(a, min(ln, L - a) if a + ln > L else ln) for a, ln in segs]
+
+
+def seg_bytes(rng, s, a, ln):
+    return bytes(rng.randrange(256) for _ in range(max(0, min(-a, ln)))) + s[max(a, 0):max(a + ln, 0)]
+
+
+# raw `ip_addr_` values: the numeric order of the stored member differs from the order of the dotted form
+HOSTS = [0x0200000A, 0x0100000A, 0x01000002, 0x02000001, 0xFFFFFFFF, 1]   # not 0: IP::serialize fills in a source address for 0.0.0.0
+FIN, SYN, RST, PSH, ACK = 1, 2, 4, 8, 16
+
+
+def conn_script(rng, idx, tup, big=False):
+    """one scripted connection of the legacy follower: declaration line + packet lines (in the connection's own order).
+    Handshake, data both ways (reordered, duplicated, overlapping, stale-start; ISNs at and across the wrap), then FIN or
+    RST from either side (with or without data), then packets after the end."""
+    ca, sa, cp, sp = tup
+    def stream():
+        L = rng.choice([0, 1, 2, 3, 5, 8, 13, 24, rng.randint(0, 48)])
+        if big:
+            L = rng.randint(40, 1500)
+        return bytes(rng.randrange(256) for _ in range(L))
+    sc, ss = stream(), stream()
+    def isn(L):
+        r = rng.random()
+        if r < 0.35 and L:
+            return (2**32 - rng.randint(0, L)) % 2**32          # the stream crosses the wrap point
+        return rng.choice(BOUNDARY_ISNS) if r < 0.8 else rng.randrange(2**32)
+    cisn, sisn = isn(len(sc)), isn(len(ss))
+    decl = f"mconn {idx} {ca} {sa} {cp} {sp} {cisn} {sisn} {hexs(sc)} {hexs(ss)}"
+    def pkt(from_client, flags, seq, ack, payload, off=None):
+        a, b, p, q = (ca, sa, cp, sp) if from_client else (sa, ca, sp, cp)
+        op = "mpktp" if rng.random() < 0.25 else "mpkt"
+        pl = "~" if payload is None else hexs(payload)
+        return f"{op} {a} {b} {p} {q} {flags} {seq % 2**32} {ack % 2**32} {pl}" + (f" @{off}" if off is not None else "")
+    out = [pkt(True, SYN, cisn - 1, 0, None)]
+    if rng.random() < 0.1:
+        out.append(pkt(True, SYN, cisn - 1, 0, None))             # retransmitted SYN
+    out.append(pkt(False, SYN | ACK, sisn - 1, cisn, None))
+    if rng.random() < 0.6:
+        out.append(pkt(True, ACK, cisn, sisn, None))
+    data = [(True, a, ln) for a, ln in rand_segs(rng, len(sc), 40 if big else 7)] + \
+           [(False, a, ln) for a, ln in rand_segs(rng, len(ss), 40 if big else 7)]
+    rng.shuffle(data)
+    def data_pkt(fc, a, ln, flags):
+        s, i, other = (sc, cisn, sisn) if fc else (ss, sisn, cisn)
+        return pkt(fc, flags, i + a, other, seg_bytes(rng, s, a, ln), a)
+    last = None
+    if data and rng.random() < 0.4:
+        last = data.pop()
+    for fc, a, ln in data:
+        out.append(data_pkt(fc, a, ln, ACK | (PSH if rng.random() < 0.3 else 0)))
+        if rng.random() < 0.05:
+            out.append(pkt(fc, ACK, (cisn if fc else sisn) + a, 0, None))     # bare ACK
+    r = rng.random()
+    if r < 0.92:
+        endflags = rng.choice([FIN | ACK, FIN, RST, RST | ACK, FIN | RST | ACK])
+        if last is not None:
+            out.append(data_pkt(last[0], last[1], last[2], endflags))        # FIN / RST segment carrying data
+        else:
+            fc = rng.random() < 0.5
+            out.append(pkt(fc, endflags, (cisn + len(sc)) if fc else (sisn + len(ss)), 0, None))
+        # after the end: the other side's FIN, a late retransmission, a bare ACK -- none of them may reach a functor
+        for _ in range(rng.randint(0, 3)):
+            fc = rng.random() < 0.5
+            k = rng.random()
+            if k < 0.4:
+                out.append(pkt(fc, rng.choice([FIN | ACK, RST, ACK]), (cisn + len(sc)) if fc else (sisn + len(ss)), 0, None))
+            else:
+                s = sc if fc else ss
+                a = rng.randint(0, len(s)); ln = rng.randint(0, len(s) - a)
+                out.append(data_pkt(fc, a, ln, ACK))
+    else:
+        if last is not None:
+            out.append(data_pkt(last[0], last[1], last[2], ACK))
+        return decl, out, False
+    return decl, out, True
+
+
+def wild_script(rng, tup):
+    """packets of a 4-tuple the oracle knows nothing about (model / implementation correspondence and the frame clause
+    only): no SYN at all, a SYN+ACK first, a RST answering the SYN, data before the handshake completes"""
+    ca, sa, cp, sp = tup
+    def pkt(fc, flags, seq, ack, payload):
+        a, b, p, q = (ca, sa, cp, sp) if fc else (sa, ca, sp, cp)
+        return f"mpkt {a} {b} {p} {q} {flags} {seq % 2**32} {ack % 2**32} {'~' if payload is None else hexs(payload)}"
+    out = []
+    style = rng.random()
+    isn = rng.choice(BOUNDARY_ISNS)
+    if style < 0.25:                        # never opened
+        out += [pkt(rng.random() < 0.5, rng.choice([ACK, SYN | ACK, FIN | ACK, RST]), isn, 5, rng.choice([None, b"", b"\x01\x02"]))
+                for _ in range(rng.randint(1, 4))]
+    elif style < 0.5:                       # connection refused: the session never completes its handshake
+        out += [pkt(True, SYN, isn - 1, 0, None), pkt(False, RST | ACK, 0, isn, None), pkt(True, ACK, isn, 1, b"\x07")]
+    elif style < 0.75:                      # data and FIN before the SYN+ACK, SYN+ACK from the client side
+        out += [pkt(True, SYN, isn - 1, 0, None), pkt(True, ACK, isn, 0, b"\x01\x02"), pkt(False, FIN | ACK, 7, isn, None),
+                pkt(True, SYN | ACK, 99, 1000, None), pkt(True, ACK, 1000, 0, b"\x03"), pkt(False, ACK, 100, 0, b"\x04\x05"),
+                pkt(False, ACK | FIN, 102, 0, b"\x06")]
+    else:                                   # simultaneous open / SYN carrying data / second SYN+ACK
+        out += [pkt(True, SYN, isn - 1, 0, b"\x09"), pkt(False, SYN, 41, 0, None), pkt(False, SYN | ACK, 41, isn, None),
+                pkt(True, ACK, isn, 42, b"\x01"), pkt(False, SYN | ACK, 77, isn + 1, None), pkt(False, ACK, 42, 0, b"\x02\x03"),
+                pkt(True, RST, isn + 1, 0, b"\x04")]
+    return out
+
+
+def session_case(rng, big=False):
+    """2-4 scripted connections interleaved through one TCPStreamFollower: same ports on swapped hosts, one port different,
+    ports swapped; sometimes one of them is closed and re-opened (a new stream with the next identifier), sometimes packets
+    of an undeclared 4-tuple run in between"""
+    a, b, c = rng.sample(HOSTS, 3)
+    p, q = rng.choice([(4321, 80), (80, 80), (0, 65535), (1024, 1025)])
+    # (a,b,q,p) would be the reverse of (b,a,p,q): the same connection as far as any follower can tell
+    # (and with p == q the swapped hosts are the reverse tuple as well)
+    tuples = [(a, b, p, q), (b, a, p, q) if p != q else (c, b, p, q), (a, b, p, (q + 1) % 65536), (a, c, p, q)]
+    n = rng.randint(2, 4)
+    rng.shuffle(tuples)
+    decls, scripts = [], []
+    for i in range(n):
+        d, sc, ended = conn_script(rng, i, tuples[i], big and i == 0)
+        decls.append(d)
+        if ended and rng.random() < 0.2:
+            d2, sc2, _ = conn_script(rng, i, tuples[i])  # the same 4-tuple again after the first incarnation ended
+            sc = sc + [d2] + sc2
+        scripts.append(sc)
+    if rng.random() < 0.3:
+        scripts.append(wild_script(rng, rng.choice([(c, a, p, q), (c, b, 5, 6), (b, b, 7, 7), (b, a, q, p)])))
+    out = ["minit"] + decls
+    idx = [0] * len(scripts)
+    live = [i for i in range(len(scripts)) if scripts[i]]
+    while live:
+        i = rng.choice(live)
+        out.append(scripts[i][idx[i]])
+        idx[i] += 1
+        if idx[i] == len(scripts[i]):
+            live.remove(i)
+    return out
+
+
+# Witnesses of lean/TinsModel/Props/C06Hyp.lean: histories OUTSIDE the property's hypothesis (one hypothesis dropped each), run on the
+# real DataTracker on every run: the model must agree with the code on them and the oracle must reject them with the named clause
+# (so the `..._needed` theorems speak about what the code does, and the oracle is seen to reject something on every run).
+HYPOTHESIS_WITNESSES = [
+    ("half_window_needed", ["init 0 07", "seg 0 07 @0", "seg 2147483649 - @-2147483647"], "buffered-state"),
+    ("half_window_needed_nonempty", ["init 0 0708", "seg 0 0708 @0", "seg 2147483649 09 @-2147483647"], "buffered-state"),
+    ("segment_inside_needed", ["init 5 01", "seg 7 - @2"], "buffered-state"),
+    ("segment_agrees_needed", ["init 5 0102", "seg 5 0109 @0"], "delivered-prefix"),
+]
+
+
+def hypothesis_witnesses(chk, exe):
+    for name, ops, clause in HYPOTHESIS_WITNESSES:
+        impl, mod, spec, _ = corr.evaluate(AREA, exe, ops, ("init",))
+        if impl != mod:
+            chk.violation(f"witness {name}: model and DataTracker differ: impl {impl[-1][:200]} | model {mod[-1][:200]}",
+                          ops + ["# impl:  " + x for x in impl] + ["# model: " + x for x in mod], nofail=True,
+                          signature={"kind": "diff", "family": "witness", "clause": name})
+        elif not spec[-1].startswith("violates " + clause) or any(x.startswith("violates") for x in spec[:-1]):
+            chk.violation(f"witness {name}: the oracle no longer rejects the history with `{clause}`: {spec[-1][:200]}",
+                          ops + ["# spec:  " + x for x in spec], nofail=True,
+                          signature={"kind": "oracle", "family": "witness", "clause": name})
+        chk.cov["evaluations"] += len(ops)
+
+
+def oversize_witness(chk, exe):
+    """`oversize_segment_dropped` on the real class: an in-order segment of 2^31 + 1 bytes is discarded whole (defined behaviour,
+    no sanitizer report: `erase_in_bounds`); 2 GiB of zero pages, thorough tier only"""
+    for isn in (0, 4294967295):
+        ops = [f"init {isn}", f"bigseg {isn} 2147483649 7"]
+        impl, faults = core.run_harness_lines(exe, (), ops, ("init",))
+        want = f"r=0 seq={isn} total=0 plen=0 ph=14695981039346656037 buf="
+        if len(impl) < 2 or impl[1] != want:
+            chk.violation(f"oversize_segment_dropped does not describe DataTracker: got {impl[-1][:200]} want {want}",
+                          ops + ["# impl:  " + x for x in impl], nofail=True,
+                          signature={"kind": "diff", "family": "witness", "clause": "oversize_segment_dropped"})
+        chk.cov["evaluations"] += 2
+
+
 def classify(op, impl):
     w = op.split(" ")
+    if w[0] in ("mpkt", "mpktp"):
+        ev = impl.split(" ")[0] if impl.startswith("ev=") else "?"
+        fl = int(w[5]) if len(w) > 5 and w[5].isdigit() else 0
+        tag = w[0] + ":" + "".join(n for b, n in ((SYN, "S"), (ACK, "A"), (FIN, "F"), (RST, "R")) if fl & b)
+        tag += ":data" if len(w) > 8 and w[8] != "~" else ":bare"
+        tag += ":" + ("D" if "D" in ev else "") + ("E" if "E" in ev else "") if ev not in ("ev=-", "?") else ""
+        tag += ":nsess=" + str(0 if impl.endswith("sess=-") else impl.count(";") + 1) if " sess=" in impl else ""
+        return tag
     if w[0] not in ("seg", "fseg", "fsegp", "lseg", "lsegp"):
         return w[0]
     tag = w[0]
@@ -182,13 +430,13 @@ def classify(op, impl):
 
 
 def sig_of(kind, detail, case):
-    fam = {"i": "tracker", "f": "flow", "l": "legacy"}.get(case[0][:1], "?") if case else "?"
+    fam = {"i": "tracker", "f": "flow", "l": "legacy", "m": "sessions"}.get(case[0][:1], "?") if case else "?"
     return {"kind": kind, "family": fam, "clause": detail.split(" ")[1] if kind == "spec" else ""}
 
 
 HARNESSES = [("c06_tracker", (), ("init",), lambda rng, c: c),
              ("c06_flow", (), ("finit",), to_flow),
-             ("c06_legacy", ("-fno-access-control",), ("linit",), to_legacy)]
+             ("c06_legacy", ("-fno-access-control",), ("linit", "minit"), to_legacy)]
 
 
 def build_all():
@@ -225,6 +473,9 @@ def run(chk):
         if i % 3 == 0:
             cases.append(dup_case(rng))
     stats = __import__("collections").Counter()
+    hypothesis_witnesses(chk, exes["c06_tracker"])
+    if chk.tier == "thorough":
+        oversize_witness(chk, exes["c06_tracker"])
     for name, _, start, conv in HARNESSES:
         # the tracker sees every case; Flow and the legacy follower (real packets, slower) every second one
         step = 1 if name == "c06_tracker" else 2
@@ -232,6 +483,12 @@ def run(chk):
         for c in cases[::step]:
             ops += conv(rng, c)
         stats += corr.correspond(chk, AREA, exes[name], ops, case_start=start, classify=classify, sig_of=sig_of)
+    # the legacy follower's session table: interleaved scripted connections (Driver/C06Sessions.lean)
+    nsess = 1200 if chk.tier == "quick" else 20000
+    ops = []
+    for i in range(nsess):
+        ops += session_case(rng, big=(i % 40 == 0))
+    stats += corr.correspond(chk, AREA, exes["c06_legacy"], ops, case_start=("linit", "minit"), classify=classify, sig_of=sig_of)
     if chk.tier == "thorough":
         # streams up to 64 KiB with up to 400 segments (the oracle slices the stream per buffered chunk per
         # operation, so these are few: about 30 s of oracle time for each stream above 32 KiB)
@@ -249,22 +506,44 @@ def run(chk):
             chk.violation("proof obligation no longer checks: " + p[:1500], ["theorem-or-audit-failure", p[:4000]], nofail=True)
     chk.cov["rule"] = ("cases = (stream, ISN, arrival history of segments cut from the stream incl. stale, duplicate, "
                        "overlapping, empty, exact retransmissions); each case runs on DataTracker directly, through "
-                       "Flow::process_packet and through TCPStreamFollower with real IP/TCP/RawPDU packets; "
-                       "distinct_nontrivial counts distinct (operation, implementation result) pairs")
+                       "Flow::process_packet (a third of the cases opened by a SYN, with SYN / FIN / RST / PSH segments) and through "
+                       "TCPStreamFollower with real IP/TCP/RawPDU packets; session cases = 2-4 scripted connections (same ports "
+                       "on swapped hosts, one port different, a third host; ISNs at and across the wrap; handshake, data both "
+                       "ways, FIN / RST with or without data, late packets, re-opened tuples, undeclared 4-tuples) interleaved "
+                       "through one follower; distinct_nontrivial counts distinct (operation, implementation result) pairs")
     chk.assumptions += [
         "std::map iterator successor is modelled order-theoretically (least greater key, else least key)",
         "payload equality with s.take k is compared through length + FNV-1a 64 in the run-time oracle",
-        "segments with |payload| >= 2^31 (vector::erase past the end, UB) are outside the property's hypothesis",
-        "theorem hypothesis: every segment starts less than 2^31 before the current delivery point (RFC 1982 leaves "
-        "the distance 2^31 undefined; `half_window_needed` shows the bound is sharp) and ends inside the stream",
+        "theorem hypotheses, each shown necessary by a witness in Props/C06Hyp.lean that is replayed on the real DataTracker on "
+        "every run (HYPOTHESIS_WITNESSES): (1) every segment starts less than 2^31 before the current delivery point (RFC 1982 "
+        "leaves the distance 2^31 undefined; half_window_needed / half_window_needed_nonempty: such a segment is buffered as if "
+        "it lay ahead); (2) it carries bytes of the stream (segment_agrees_needed) - which for a non-empty segment implies "
+        "that it ends inside the stream (agrees_gives_inside; segment_inside_needed: the empty segment beyond the end); "
+        "(3) |s| < 2^31 (stream_bound_needed, for every longer stream)",
+        "segments of 2^31 bytes and more are outside the hypothesis but are NOT undefined behaviour: both vector::erase calls of "
+        "process_payload stay in range for every payload size (erase_in_bounds); the end of such a segment compares as lying "
+        "before its start, an in-order one of more than 2^31 bytes is discarded whole (oversize_segment_dropped; run on the real "
+        "class with 2^31+1 bytes in the thorough tier, exactly 2^31 bytes are still delivered)",
         "byte counter compared exactly for streams <= 64 KiB (tracker_refines_spec) and modulo 2^32 for streams "
-        "< 2^31 (tracker_refines_spec_wide): the counter is a uint32_t",
+        "< 2^31 (tracker_refines_spec_wide): the counter is a uint32_t; exact iff the sum of the chunk sizes is < 2^32 "
+        "(byte_counter_exact_iff_small), for which 64 KiB is a sufficient bound, not the largest one",
+        "legacy follower: the two endpoints of a connection differ (Conn.OK.distinct; otherwise TCPStream::update sends both "
+        "directions to the client side) and two connections are distinct iff their unordered 4-tuples are (a tuple and its "
+        "reverse are the same session for TCPStreamFollower); fewer than 2^64 packets for pairwise distinct stream identifiers",
     ]
     chk.trusted += ["correspondence harnesses harness/c06_tracker.cpp, c06_flow.cpp, c06_legacy.cpp (the last built "
-                    "with -fno-access-control to print private per-direction state) + generators in checks/C06.py",
+                    "with -fno-access-control to print private per-direction state and the session table) + generators in "
+                    "checks/C06.py",
                     "g++ 12 / ASan+UBSan build of /repo's working tree"]
-    chk.extra["modelled_not_proved"] = ["TCPStreamFollower session table / handshake (driven, not modelled beyond "
-                                        "the two per-direction streams)", "Flow::update_state, AckTracker (C19)"]
+    chk.extra["modelled_not_proved"] = [
+        "legacy follower outside the scripted fragment (correspondence-only, generator `wild_script`): simultaneous open, data / "
+        "FIN / RST before the SYN+ACK (ignored: a refused connection keeps its session for ever - `handshake`), a second SYN+ACK, "
+        "a connection whose two endpoints are equal; follow_streams over a BaseSniffer (only the iterator-range overload is driven)",
+        "Flow::update_state itself and the AckTracker are C07 / C19 (TinsModel/Follower/Model.lean `Flow.updateState`, Props/C07, "
+        "Props/C19); C06 imports that model: flow_callbacks is stated over SF.Flow.processPacket in every state, "
+        "flow_update_state_tracker / flow_syn_opens say what update_state does to the reassembly state; recovery mode "
+        "(Flow with a recovery handler) is C07's recovery_skips_hole",
+    ]
     corr.finalize_cov(chk)
 
 
